@@ -105,12 +105,18 @@ mutual
     | .ret (some e) => szV e + 1
     | .selFromW _ _ _ w => szV w + 1
     | .while_ e b => szV e + szB b + 2
-    | .if_ e b _ _ => szV e + szB b + 2
+    | .if_ e b elifs els => szV e + szB b + szEl elifs + szEs els + 2
     | .forEach _ _ b => szB b + 2
     | _ => 1
   def szB : Block → Nat
     | .nil => 1
     | .cons s rest => max (szS s) (szB rest) + 1
+  def szEl : Elifs → Nat
+    | .nil => 0
+    | .cons e b rest => szV e + szB b + szEl rest + 2
+  def szEs : Else → Nat
+    | .none => 0
+    | .some b => szB b + 2
 end
 
 /-- what later rows must NOT do for the rows of ONE statement (index `lo`, rows up to `hi`) to read back the same:
@@ -175,6 +181,35 @@ structure StmtSpec (fc : FCtx) (prev : Option Nat) (s : Stmt) (st : St) : Prop w
         subCount ((buildStmt fc prev s st).2.pop ++ ext) i = 1)
   uniq : ∀ ext : List Row, (∀ x ∈ ext, x.smtOf ≠ some st.pop.length) →
     subCount ((buildStmt fc prev s st).2.pop ++ ext) st.pop.length = 1
+
+/-- weak freshness: later rows may name, over R682 / R683, the statement itself or an earlier one (the clauses of this
+    `if` or of an enclosing one) -/
+def FreshW (lo hi : Nat) (ext : List Row) : Prop := ∀ x ∈ ext,
+  (∀ b' p, x = .smt b' p → (b' ≤ lo ∨ hi ≤ b') ∧ ∀ k, p = some k → k ≤ lo ∨ hi ≤ k) ∧ (∀ k ∈ ikeys x, k ≤ lo ∨ hi ≤ k)
+
+theorem FreshS.weak {lo hi : Nat} {ext : List Row} (h : FreshS lo hi ext) : FreshW lo hi ext := fun x hx =>
+  ⟨(h x hx).1, fun k hk => ((h x hx).2 k hk).imp Nat.le_of_lt id⟩
+
+/-- what an ACT_SMT followed by rows `V`, ONE new block with the statement list `b`, and the R603 subtype row `sub` does
+    to the builder state (`X`: the state afterwards) — a `while` / `for each` / `if` head, an `elif` / `else` clause -/
+structure BSpec (fc : FCtx) (prev : Option Nat) (b : Block) (n : Nat) (st V : St) (sub : Row) (X : St) : Prop where
+  ok0 : st.ok = true
+  grows : ∃ dm : List Row, X.pop = st.pop ++ (.smt (curBlkD st.scopes) prev :: (dm ++ [sub])) ∧ n ≤ dm.length + 2 ∧
+    (∀ x ∈ dm, (∀ k, x.smtOf = some k → st.pop.length < k) ∧
+      (∀ b' p, x = .smt b' p → st.pop.length < b' ∧ ∀ k, p = some k → st.pop.length < k) ∧
+      (∀ k ∈ ikeys x, st.pop.length < k))
+  inv : Inv X
+  shape : curBlk X.scopes = curBlk st.scopes ∧ X.scopes.tail = st.scopes.tail
+  sub : ∀ ext : List Row, smtSub (X.pop ++ ext) st.pop.length = some sub
+  regen : ∀ (ext : List Row) (fuel : Nat), FreshW st.pop.length X.pop.length ext → n ≤ fuel →
+    ∃ rest f, X.pop ++ ext = V.pop ++ rest ∧ fuel = f + 1 ∧
+      ((∀ x ∈ ext, ∀ k ∈ ikeys x, k ≠ st.pop.length) → ∀ x ∈ rest, ∀ k ∈ ikeys x, k ≠ st.pop.length) ∧
+      regenBlk (V.pop ++ rest) f V.pop.length = genBlock b
+  subsAll : ∀ (ext : List Row) (i b' : Nat) (p : Option Nat),
+    (X.pop ++ ext)[i]? = some (.smt b' p) → st.pop.length ≤ i → i < X.pop.length →
+    ∃ row, smtSub (X.pop ++ ext) i = some row ∧ row.smtOf = some i ∧
+      ((∀ x ∈ ext, ∀ k, x.smtOf = some k → k < st.pop.length ∨ X.pop.length ≤ k) → subCount (X.pop ++ ext) i = 1)
+  uniq : ∀ ext : List Row, (∀ x ∈ ext, x.smtOf ≠ some st.pop.length) → subCount (X.pop ++ ext) st.pop.length = 1
 
 /-- a statement without nested blocks: ACT_SMT, then value / variable rows, then the R603 subtype row -/
 theorem simple_spec {fc : FCtx} {prev : Option Nat} {s : Stmt} {st : St} (mid : St) (sub : Row)
@@ -907,17 +942,24 @@ theorem buildStmt_ok_mono_core0 {fc : FCtx} {prev : Option Nat} {s : Stmt} {st :
 @[simp] theorem popScope_ok (st : St) : (popScope st).ok = st.ok := rfl
 @[simp] theorem popScope_scopes (st : St) : (popScope st).scopes = st.scopes.tail := rfl
 
-/- the statements / statement lists the body-level theorems cover: `coreS0` and, recursively, `while` -/
+/- the statements / statement lists the body-level theorems cover: `coreS0` and, recursively, `while`, `for each`,
+   `select … where` and `if` with any number of `elif` clauses and an optional `else` clause (`coreEl` / `coreEs`) -/
 mutual
   def coreS : Stmt → Bool
     | .while_ e b => coreE e && coreB b
-    | .if_ e b .nil .none => coreE e && coreB b
+    | .if_ e b elifs els => coreE e && coreB b && coreEl elifs && coreEs els
     | .forEach v sv b => v != "self" && sv != "self" && coreB b
     | .selFromW card v _ w => v != "self" && lowerStr card == card && coreE w
     | s => coreS0 s
   def coreB : Block → Bool
     | .nil => true
     | .cons s rest => coreS s && coreB rest
+  def coreEl : Elifs → Bool
+    | .nil => true
+    | .cons e b rest => coreE e && coreB b && coreEl rest
+  def coreEs : Else → Bool
+    | .none => true
+    | .some b => coreB b
 end
 
 def headOf (n : Nat) : Block → Option Nat
@@ -1106,7 +1148,7 @@ theorem swPre_ok_mono {fc : FCtx} {v kl : String} {w : Expr} {many : Bool} {M : 
   have := buildExpr_ok_mono fc w _ (swPre_cases hok hv).1
   simpa using this
 
-attribute [local irreducible] buildStmt buildStmts in
+attribute [local irreducible] buildStmt buildStmts buildElifs buildElse in
 mutual
 theorem buildStmt_ok_mono_core (fc : FCtx) : ∀ (s : Stmt) (prev : Option Nat) (st : St), coreS s = true →
     (buildStmt fc prev s st).2.ok = true → st.ok = true
@@ -1146,15 +1188,15 @@ theorem buildStmt_ok_mono_core (fc : FCtx) : ∀ (s : Stmt) (prev : Option Nat) 
     simp only [pushScope_ok, new_ok] at h1
     have := fePre_ok_mono h1 hc.1.1 hc.1.2
     simp at this; exact this.1
-  | .if_ e b .nil .none, prev, st, hc, h => by
+  | .if_ e b elifs els, prev, st, hc, h => by
     simp only [coreS, Bool.and_eq_true] at hc
-    simp only [buildStmt, buildElifs, buildElse, withBlock, new_ok, popScope_ok] at h
-    have h1 := buildStmts_ok_mono_core fc b none _ hc.2 h
+    simp only [buildStmt] at h
+    have h0 := buildElifs_ok_mono_core fc elifs _ _ hc.1.2 (buildElse_ok_mono_core fc els _ _ hc.2 h)
+    simp only [withBlock, new_ok, popScope_ok] at h0
+    have h1 := buildStmts_ok_mono_core fc b none _ hc.1.1.2 h0
     simp only [pushScope_ok, new_ok] at h1
     have := buildExpr_ok_mono fc e _ h1
     simp at this; exact this.1
-  | .if_ e b (.cons _ _ _) els, prev, st, hc, h => by simp [coreS, coreS0] at hc
-  | .if_ e b .nil (.some _), prev, st, hc, h => by simp [coreS, coreS0] at hc
   | .invoke e, prev, st, hc, h => by simp [coreS, coreS0] at hc
   | .genEvt l m d t, prev, st, hc, h => by simp [coreS, coreS0] at hc
   | .createEvt v l m d t, prev, st, hc, h => by simp [coreS, coreS0] at hc
@@ -1166,6 +1208,27 @@ theorem buildStmts_ok_mono_core (fc : FCtx) : ∀ (ss : Block) (prev : Option Na
     simp only [coreB, Bool.and_eq_true] at hc
     simp only [buildStmts] at h
     exact buildStmt_ok_mono_core fc s prev st hc.1 (buildStmts_ok_mono_core fc rest _ _ hc.2 h)
+theorem buildElifs_ok_mono_core (fc : FCtx) : ∀ (el : Elifs) (ifS : Nat) (st : St), coreEl el = true →
+    (buildElifs fc ifS el st).ok = true → st.ok = true
+  | .nil, _, st, _, h => by simpa [buildElifs] using h
+  | .cons e b rest, ifS, st, hc, h => by
+    simp only [coreEl, Bool.and_eq_true] at hc
+    simp only [buildElifs] at h
+    have h0 := buildElifs_ok_mono_core fc rest ifS _ hc.2 h
+    simp only [withBlock, new_ok, popScope_ok] at h0
+    have h1 := buildStmts_ok_mono_core fc b none _ hc.1.2 h0
+    simp only [pushScope_ok, new_ok] at h1
+    have := buildExpr_ok_mono fc e _ h1
+    simp at this; exact this.1
+theorem buildElse_ok_mono_core (fc : FCtx) : ∀ (els : Else) (ifS : Nat) (st : St), coreEs els = true →
+    (buildElse fc ifS els st).ok = true → st.ok = true
+  | .none, _, st, _, h => by simpa [buildElse] using h
+  | .some b, ifS, st, hc, h => by
+    simp only [coreEs] at hc
+    simp only [buildElse, withBlock, new_ok, popScope_ok] at h
+    have h1 := buildStmts_ok_mono_core fc b none _ hc h
+    simp only [pushScope_ok, new_ok] at h1
+    simp at h1; exact h1.1
 end
 
 /-- `ok` of the final state is `ok` after every statement -/
@@ -1315,33 +1378,31 @@ theorem getElem?_lt_of_some {l : List Row} {i : Nat} {x : Row} (h : l[i]? = some
   · exact h'
   · simp [List.getElem?_eq_none h'] at h
 
-/-- a statement with ONE nested block: ACT_SMT, rows `dE` without statements (values, variables), a new ACT_BLK with its
-    scope and statement list (`accept_BlockNode`), then the R603 subtype row `mk blk` -/
-theorem blockStmt_spec {fc : FCtx} {prev : Option Nat} {s : Stmt} {b : Block} {st : St} (V : St) (mk : Nat → Row)
-    (dE : List Row)
-    (hb : buildStmt fc prev s st = (st.pop.length,
-      ((popScope (buildStmts fc none b (pushScope (.blk V.pop.length) (V.new (.blk false)).2))).new (mk V.pop.length)).2))
-    (hinv : Inv st) (hok : (buildStmt fc prev s st).2.ok = true)
+/-- an ACT_SMT, rows `dE` without statements (values, variables), a new ACT_BLK with its scope and statement list
+    (`accept_BlockNode`), then the R603 subtype row `mk blk` (which may name an earlier `if` over R682 / R683) -/
+theorem block_gen {fc : FCtx} {prev : Option Nat} {b : Block} {st : St} (n : Nat) (V : St) (mk : Nat → Row)
+    (dE : List Row) (X : St)
+    (hX : X = ((popScope (buildStmts fc none b (pushScope (.blk V.pop.length) (V.new (.blk false)).2))).new
+      (mk V.pop.length)).2)
+    (hinv : Inv st) (hok : X.ok = true)
     (hdE' : V.pop = st.pop ++ (.smt (curBlkD st.scopes) prev :: dE))
     (hplain : ∀ x ∈ dE, x.smtOf = none ∧ skeys x = [])
     (hVts : TS V.pop) (hVsym : SymOK V) (hVcb : curBlk V.scopes = curBlk st.scopes)
     (hVtl : V.scopes.tail = st.scopes.tail) (hVok : V.ok = true → st.ok = true)
-    (hmk : (mk V.pop.length).smtOf = some st.pop.length ∧ skeys (mk V.pop.length) = [] ∧ (mk V.pop.length).valOf = none)
-    (hsz1 : szS s ≤ dE.length + szB b + 2) (hsz2 : szB b + 2 ≤ szS s)
+    (hmk : (mk V.pop.length).smtOf = some st.pop.length ∧ (∀ k ∈ skeys (mk V.pop.length), k < st.pop.length) ∧
+      (mk V.pop.length).valOf = none)
+    (hsz1 : n ≤ dE.length + szB b + 2) (hsz2 : szB b + 2 ≤ n)
     (hM : ∀ st' : St, (buildStmts fc none b st').ok = true → st'.ok = true)
-    (hC : ∀ st' : St, Inv st' → (buildStmts fc none b st').ok = true → ChainSpec fc none b st')
-    (hprint : ∀ (rest : List Row) (f : Nat), szS s ≤ f + 1 → (∀ x ∈ rest, ∀ k ∈ ikeys x, k ≠ st.pop.length) →
-      smtSub (V.pop ++ rest) st.pop.length = some (mk V.pop.length) →
-      regenBlk (V.pop ++ rest) f V.pop.length = genBlock b →
-      regenSmt (V.pop ++ rest) (f + 1) st.pop.length = genStmt s) :
-    StmtSpec fc prev s st := by
+    (hC : ∀ st' : St, Inv st' → (buildStmts fc none b st').ok = true → ChainSpec fc none b st') :
+    BSpec fc prev b n st V (mk V.pop.length) X := by
+  subst hX
   generalize hK : pushScope (.blk V.pop.length)
-        (V.new (.blk false)).2 = K at hb
+        (V.new (.blk false)).2 = K at hok ⊢
   have hKpop : K.pop = V.pop ++ [Row.blk false] := by rw [← hK]; simp
   have hKsc : K.scopes = ⟨.blk V.pop.length, []⟩ ::
       V.scopes := by rw [← hK]; simp
   have hKok : K.ok = V.ok := by rw [← hK]; simp
-  have hinner : (buildStmts fc none b K).ok = true := by rw [hb] at hok; simpa using hok
+  have hinner : (buildStmts fc none b K).ok = true := by simpa using hok
   have hVlen : V.pop.length = st.pop.length + 1 + dE.length := by rw [hdE']; simp; omega
   obtain ⟨b0, hb0, hb0lt⟩ := hinv.blk
   have invK : Inv K := by
@@ -1359,10 +1420,10 @@ theorem blockStmt_spec {fc : FCtx} {prev : Option Nat} {s : Stmt} {b : Block} {s
   have hcbK : curBlkD K.scopes = V.pop.length := by rw [hKsc]; rfl
   have hok0 : st.ok = true := hVok (by rw [← hKok]; exact hM K hinner)
   have hmkne : ∀ b' p, mk V.pop.length ≠ .smt b' p := by
-    intro b' p h; have := hmk.2.1; rw [h] at this; simp [skeys] at this
-  have hmkik : ikeys (mk V.pop.length) = [] := by
-    have := hmk.2.1; cases hm : mk V.pop.length <;> simp [hm, skeys, ikeys] at this ⊢
-  -- the rows between the ACT_SMT and the ACT_WHL
+    intro b' p h; have := hmk.1; rw [h] at this; simp [Row.smtOf] at this
+  have hmkik : ∀ k ∈ ikeys (mk V.pop.length), k < st.pop.length :=
+    fun k hk => hmk.2.1 k (ikeys_sub_skeys _ k hk)
+  -- the rows between the ACT_SMT and the subtype row
   have hD : ∀ x ∈ dE ++ [Row.blk false] ++ dC, (∀ k, x.smtOf = some k → st.pop.length < k) ∧
       (∀ b' p, x = .smt b' p → st.pop.length < b' ∧ ∀ k, p = some k → st.pop.length < k) ∧
       (∀ k ∈ ikeys x, st.pop.length < k) := by
@@ -1394,9 +1455,9 @@ theorem blockStmt_spec {fc : FCtx} {prev : Option Nat} {s : Stmt} {b : Block} {s
   have hTS : TS ((popScope (buildStmts fc none b K)).new (mk V.pop.length)).2.pop := by
     simp only [new_pop, popScope_pop]
     apply C.inv.ts.append1
-    refine ⟨fun k hk => (by rw [hmk.2.2] at hk; cases hk), fun k hk => ?_, fun k hk => (by rw [hmk.2.1] at hk; cases hk)⟩
+    refine ⟨fun k hk => (by rw [hmk.2.2] at hk; cases hk), fun k hk => ?_, fun k hk => (by have := hmk.2.1 k hk; omega)⟩
     rw [hmk.1] at hk; cases hk; omega
-  -- no row before the ACT_WHL claims the statement
+  -- no row before the subtype row claims the statement
   have hnone : ∀ x ∈ (buildStmts fc none b K).pop, x.smtOf ≠ some st.pop.length := by
     intro x hx hxe
     rw [hPin] at hx
@@ -1419,17 +1480,17 @@ theorem blockStmt_spec {fc : FCtx} {prev : Option Nat} {s : Stmt} {b : Block} {s
     exact hnone x (List.mem_of_getElem? hx)
   have hFsc : ((popScope (buildStmts fc none b K)).new (mk V.pop.length)).2.scopes = V.scopes := by
     simp [C.shape.2, hKsc]
-  have hregen : ∀ (ext : List Row) (fuel : Nat),
-      FreshS st.pop.length ((popScope (buildStmts fc none b K)).new (mk V.pop.length)).2.pop.length ext →
-      szS (s) ≤ fuel →
-      regenSmt (((popScope (buildStmts fc none b K)).new (mk V.pop.length)).2.pop ++ ext) fuel
-        st.pop.length = genStmt (s) := by
-    intro ext fuel hfr hf
+  refine ⟨hok0, ⟨dE ++ [Row.blk false] ++ dC, hP, by simp; omega, hD⟩, ⟨hTS, ?_, ?_⟩, ?_, hfind, ?_, ?_, ?_⟩
+  · exact hVsym.mono hFsc (d := [Row.blk false] ++ dC ++ [mk V.pop.length])
+      (by simp [hdC, hKpop])
+  · refine ⟨b0, by rw [hFsc, hVcb]; exact hb0, ?_⟩
+    rw [hP]; simp; omega
+  · rw [hFsc]; exact ⟨hVcb, hVtl⟩
+  · intro ext fuel hfr hf
     have hszb := one_le_szB b
     obtain ⟨f, rfl⟩ := fuel_succ (by omega : 1 ≤ fuel)
     obtain ⟨g, rfl⟩ := fuel_succ (by omega : 1 ≤ f)
-    have hs := hfind ext
-    simp only [new_pop, popScope_pop] at hfr hs ⊢
+    simp only [new_pop, popScope_pop] at hfr ⊢
     have hFlen : ((buildStmts fc none b K).pop ++ [mk V.pop.length]).length =
         (buildStmts fc none b K).pop.length + 1 := by simp
     rw [hFlen] at hfr
@@ -1488,7 +1549,7 @@ theorem blockStmt_spec {fc : FCtx} {prev : Option Nat} {s : Stmt} {b : Block} {s
       apply C.regen ([mk V.pop.length] ++ ext) g _ (by omega)
       intro x hx k hk
       rcases List.mem_append.1 hx with h | h
-      · simp at h; subst h; rw [hmk.2.1] at hk; cases hk
+      · simp at h; subst h; have := hmk.2.1 k hk; left; omega
       · obtain ⟨h1, h2⟩ := hfr x h
         cases x with
         | smt b' p =>
@@ -1504,41 +1565,17 @@ theorem blockStmt_spec {fc : FCtx} {prev : Option Nat} {s : Stmt} {b : Block} {s
         | _ => simp [skeys] at hk
     have e1 : (buildStmts fc none b K).pop ++ [mk V.pop.length] ++ ext =
         V.pop ++ ([Row.blk false] ++ dC ++ [mk V.pop.length] ++ ext) := by simp [hdC, hKpop]
-    rw [e1] at hs hblk ⊢
-    apply hprint _ (g + 1) hf _ hs hblk
-    intro x hx k hk hkn
+    rw [e1] at hblk
+    refine ⟨[Row.blk false] ++ dC ++ [mk V.pop.length] ++ ext, g + 1, e1, rfl, ?_, hblk⟩
+    intro hext x hx k hk hkn
     subst hkn
     simp only [List.mem_append, List.mem_singleton] at hx
     rcases hx with ((hx | hx) | hx) | hx
     · subst hx; simp [ikeys] at hk
     · have := (hkC x hx).2 _ hk; omega
-    · subst hx; rw [hmkik] at hk; cases hk
-    · have := (hfr x hx).2 _ hk; omega
-  refine ⟨hok0, by rw [hb], ⟨dE ++ [Row.blk false] ++ dC ++ [mk V.pop.length], ?_, ?_, ?_⟩,
-    ⟨?_, ?_, ?_⟩, ?_, ?_, ?_, ?_, ?_⟩
-  · rw [hb]; exact hP
-  · simp; omega
-  · intro x hx
-    rcases List.mem_append.1 hx with h | h
-    · obtain ⟨h1, h2, h3⟩ := hD x h
-      refine ⟨fun k hk => Nat.le_of_lt (h1 k hk), ?_, fun k hk => Nat.le_of_lt (h3 k hk)⟩
-      intro b' p hxe
-      exact ⟨.inr (h2 b' p hxe).1, (h2 b' p hxe).2⟩
-    · simp at h; subst h
-      exact ⟨fun k hk => (by rw [hmk.1] at hk; cases hk; exact Nat.le_refl _), fun b' p h => absurd h (hmkne b' p),
-        fun k hk => (by rw [hmkik] at hk; cases hk)⟩
-  · rw [hb]; exact hTS
-  · rw [hb]
-    exact hVsym.mono hFsc (d := [Row.blk false] ++ dC ++ [mk V.pop.length])
-      (by simp [hdC, hKpop])
-  · rw [hb]
-    refine ⟨b0, by rw [hFsc, hVcb]; exact hb0, ?_⟩
-    rw [hP]; simp; omega
-  · rw [hb]; rw [hFsc]; exact ⟨hVcb, hVtl⟩
-  · intro ext; rw [hb]; exact ⟨_, hfind ext, hmkik⟩
-  · intro ext fuel hfr hf; rw [hb] at hfr ⊢; exact hregen ext fuel hfr hf
+    · subst hx; have := hmkik _ hk; omega
+    · exact hext x hx _ hk rfl
   · intro ext i b' p hi hge hlt
-    rw [hb] at hi hlt ⊢
     by_cases hin : i = st.pop.length
     · subst hin
       refine ⟨_, hfind ext, hmk.1, fun hc => ?_⟩
@@ -1572,9 +1609,53 @@ theorem blockStmt_spec {fc : FCtx} {prev : Option Nat} {s : Stmt} {b : Block} {s
           rw [List.append_assoc, List.getElem?_append_right (Nat.le_refl _)] at hi
           simp at hi; exact hmkne _ _ hi
   · intro ext hext
-    rw [hb]
     simp only [new_pop, popScope_pop]
     exact subCount_parts hnone hext hmk.1
+
+/-- a statement with ONE nested block: ACT_SMT, rows `dE` without statements (values, variables), a new ACT_BLK with its
+    scope and statement list (`accept_BlockNode`), then the R603 subtype row `mk blk` -/
+theorem blockStmt_spec {fc : FCtx} {prev : Option Nat} {s : Stmt} {b : Block} {st : St} (V : St) (mk : Nat → Row)
+    (dE : List Row)
+    (hb : buildStmt fc prev s st = (st.pop.length,
+      ((popScope (buildStmts fc none b (pushScope (.blk V.pop.length) (V.new (.blk false)).2))).new (mk V.pop.length)).2))
+    (hinv : Inv st) (hok : (buildStmt fc prev s st).2.ok = true)
+    (hdE' : V.pop = st.pop ++ (.smt (curBlkD st.scopes) prev :: dE))
+    (hplain : ∀ x ∈ dE, x.smtOf = none ∧ skeys x = [])
+    (hVts : TS V.pop) (hVsym : SymOK V) (hVcb : curBlk V.scopes = curBlk st.scopes)
+    (hVtl : V.scopes.tail = st.scopes.tail) (hVok : V.ok = true → st.ok = true)
+    (hmk : (mk V.pop.length).smtOf = some st.pop.length ∧ skeys (mk V.pop.length) = [] ∧ (mk V.pop.length).valOf = none)
+    (hsz1 : szS s ≤ dE.length + szB b + 2) (hsz2 : szB b + 2 ≤ szS s)
+    (hM : ∀ st' : St, (buildStmts fc none b st').ok = true → st'.ok = true)
+    (hC : ∀ st' : St, Inv st' → (buildStmts fc none b st').ok = true → ChainSpec fc none b st')
+    (hprint : ∀ (rest : List Row) (f : Nat), szS s ≤ f + 1 → (∀ x ∈ rest, ∀ k ∈ ikeys x, k ≠ st.pop.length) →
+      smtSub (V.pop ++ rest) st.pop.length = some (mk V.pop.length) →
+      regenBlk (V.pop ++ rest) f V.pop.length = genBlock b →
+      regenSmt (V.pop ++ rest) (f + 1) st.pop.length = genStmt s) :
+    StmtSpec fc prev s st := by
+  have G := block_gen (fc := fc) (prev := prev) (b := b) (st := st) (szS s) V mk dE (buildStmt fc prev s st).2
+    (by rw [hb]) hinv hok hdE' hplain hVts hVsym hVcb hVtl hVok
+    ⟨hmk.1, (fun k hk => by rw [hmk.2.1] at hk; cases hk), hmk.2.2⟩ hsz1 hsz2 hM hC
+  have hmkik : ikeys (mk V.pop.length) = [] := by
+    have := hmk.2.1; cases hm : mk V.pop.length <;> simp [hm, skeys, ikeys] at this ⊢
+  obtain ⟨dm, hdm, hszm, hrows⟩ := G.grows
+  refine ⟨G.ok0, by rw [hb], ⟨dm ++ [mk V.pop.length], hdm, by simp; omega, ?_⟩, G.inv, G.shape,
+    fun ext => ⟨_, G.sub ext, hmkik⟩, ?_, G.subsAll, G.uniq⟩
+  · intro x hx
+    rcases List.mem_append.1 hx with h | h
+    · obtain ⟨h1, h2, h3⟩ := hrows x h
+      refine ⟨fun k hk => Nat.le_of_lt (h1 k hk), ?_, fun k hk => Nat.le_of_lt (h3 k hk)⟩
+      intro b' p hxe
+      exact ⟨.inr (h2 b' p hxe).1, (h2 b' p hxe).2⟩
+    · simp at h; subst h
+      refine ⟨fun k hk => (by rw [hmk.1] at hk; cases hk; exact Nat.le_refl _), ?_,
+        fun k hk => (by rw [hmkik] at hk; cases hk)⟩
+      intro b' p h; have := hmk.2.1; rw [h] at this; simp [skeys] at this
+  · intro ext fuel hfr hf
+    obtain ⟨rest, f, e1, rfl, hne, hblk⟩ := G.regen ext fuel hfr.weak hf
+    have hs := G.sub ext
+    rw [e1] at hs ⊢
+    have hXlen : st.pop.length < (buildStmt fc prev s st).2.pop.length := by rw [hdm]; simp
+    exact hprint rest f hf (hne (fun x hx k hk => by have := (hfr x hx).2 k hk; omega)) hs hblk
 
 /-- `while`: ACT_SMT, the condition's values, a new ACT_BLK with its scope and statement list, ACT_WHL -/
 theorem while_spec {fc : FCtx} {prev : Option Nat} {e : Expr} {b : Block} {st : St} (hce : coreE e = true)
@@ -1649,9 +1730,9 @@ theorem if_spec {fc : FCtx} {prev : Option Nat} {e : Expr} {b : Block} {st : St}
     hVpop hplain (hts0.expr E)
     (E.symOK (newSmt_sym hinv)) (by rw [E.scopes]; simp) (by rw [E.scopes]; simp)
     (fun h => by have := E.ok0; simp at this; exact this.1)
-    ⟨rfl, rfl, rfl⟩ (by simp [szS]; omega) (by simp [szS]) hM hC
+    ⟨rfl, rfl, rfl⟩ (by simp [szS, szEl, szEs]; omega) (by simp [szS, szEl, szEs]) hM hC
   intro rest f hf hik hs hblk
-  simp only [szS] at hf
+  simp only [szS, szEl, szEs] at hf
   have hszb := one_le_szB b
   obtain ⟨g, rfl⟩ := fuel_succ (by omega : 1 ≤ f)
   have := E.regen rest (g + 1) (by omega)
@@ -1823,7 +1904,474 @@ theorem selFromW_spec {fc : FCtx} {prev : Option Nat} {card v kl : String} {w : 
       · rw [newVar_scopes, findSym_install hne]; simp
       · simp [hWsc, curBlkD, curBlk]
 
-attribute [local irreducible] buildStmt buildStmts in
+/-! ### `if` with elif / else clauses -/
+
+theorem elifsOf_append (a b : FlatPop) (n : Nat) : elifsOf (a ++ b) n = elifsOf a n ++ elifsOf b n := by
+  simp [elifsOf, List.filter_append]
+
+theorem elseOf_append (a b : FlatPop) (n : Nat) : elseOf (a ++ b) n = (elseOf a n).or (elseOf b n) := by
+  simp [elseOf, List.find?_append]
+
+theorem FreshW.mono {lo hi lo' hi' : Nat} {ext : List Row} (h : FreshW lo hi ext) (h1 : lo ≤ lo') (h2 : hi' ≤ hi) :
+    FreshW lo' hi' ext := by
+  intro x hx
+  obtain ⟨a, c⟩ := h x hx
+  refine ⟨fun b' p hxe => ⟨?_, fun k hk => ?_⟩, fun k hk => ?_⟩
+  · rcases (a b' p hxe).1 with h | h
+    · left; omega
+    · right; omega
+  · rcases (a b' p hxe).2 k hk with h | h
+    · left; omega
+    · right; omega
+  · rcases c k hk with h | h
+    · left; omega
+    · right; omega
+
+/-- what a run of elif / else clauses of the `if` statement `ifS` does to the builder state (`st` before, `X` after) -/
+structure SeqSpec (ifS : Nat) (n : Nat) (st X : St) : Prop where
+  inv : Inv X
+  shape : curBlk X.scopes = curBlk st.scopes ∧ X.scopes.tail = st.scopes.tail
+  grows : ∃ d : List Row, X.pop = st.pop ++ d ∧ n ≤ d.length ∧
+    (∀ x ∈ d, (∀ k, x.smtOf = some k → st.pop.length ≤ k) ∧
+      (∀ b' p, x = .smt b' p → (b' = curBlkD st.scopes ∨ st.pop.length < b') ∧ ∀ k, p = some k → st.pop.length < k) ∧
+      (∀ k ∈ ikeys x, k = ifS ∨ st.pop.length ≤ k))
+  subsAll : ∀ (ext : List Row) (i b' : Nat) (p : Option Nat),
+    (X.pop ++ ext)[i]? = some (.smt b' p) → st.pop.length ≤ i → i < X.pop.length →
+    ∃ row, smtSub (X.pop ++ ext) i = some row ∧ row.smtOf = some i ∧
+      ((∀ x ∈ ext, ∀ k, x.smtOf = some k → k < st.pop.length ∨ X.pop.length ≤ k) → subCount (X.pop ++ ext) i = 1)
+
+theorem SeqSpec.refl {ifS : Nat} {st : St} (hinv : Inv st) : SeqSpec ifS 0 st st :=
+  ⟨hinv, ⟨rfl, rfl⟩, ⟨[], by simp, by simp, by simp⟩, by intro ext i b' p _ h1 h2; omega⟩
+
+theorem SeqSpec.le {ifS n n' : Nat} {st X : St} (h : SeqSpec ifS n st X) (hn : n' ≤ n) : SeqSpec ifS n' st X := by
+  obtain ⟨d, hd, hs, hr⟩ := h.grows
+  exact ⟨h.inv, h.shape, ⟨d, hd, by omega, hr⟩, h.subsAll⟩
+
+theorem SeqSpec.of_block {fc : FCtx} {ifS n : Nat} {b : Block} {st V X : St} {sub : Row}
+    (G : BSpec fc none b n st V sub X) (hs : sub.smtOf = some st.pop.length) (hk : ∀ k ∈ ikeys sub, k = ifS) :
+    SeqSpec ifS n st X := by
+  obtain ⟨dm, hdm, hsz, hrows⟩ := G.grows
+  refine ⟨G.inv, G.shape, ⟨.smt (curBlkD st.scopes) none :: (dm ++ [sub]), hdm, by simp; omega, ?_⟩, G.subsAll⟩
+  intro x hx
+  simp only [List.mem_cons, List.mem_append, List.mem_singleton, List.not_mem_nil, or_false] at hx
+  rcases hx with rfl | hx | rfl
+  · exact ⟨fun k hk => by simp [Row.smtOf] at hk,
+      fun b' p h => by cases h; exact ⟨.inl rfl, fun k hk => by cases hk⟩, fun k hk => by simp [ikeys] at hk⟩
+  · obtain ⟨h1, h2, h3⟩ := hrows x hx
+    exact ⟨fun k hk => Nat.le_of_lt (h1 k hk), fun b' p h => ⟨.inr (h2 b' p h).1, (h2 b' p h).2⟩,
+      fun k hk => .inr (Nat.le_of_lt (h3 k hk))⟩
+  · exact ⟨fun k hk' => by rw [hs] at hk'; cases hk'; exact Nat.le_refl _,
+      fun b' p h => by rw [h] at hs; simp [Row.smtOf] at hs, fun k hk' => .inl (hk k hk')⟩
+
+theorem SeqSpec.trans {ifS n1 n2 : Nat} {st X1 X : St} (A : SeqSpec ifS n1 st X1) (B : SeqSpec ifS n2 X1 X) :
+    SeqSpec ifS (n1 + n2) st X := by
+  obtain ⟨d1, hd1, hs1, hr1⟩ := A.grows
+  obtain ⟨d2, hd2, hs2, hr2⟩ := B.grows
+  have hcb : curBlkD X1.scopes = curBlkD st.scopes := by simp [curBlkD, A.shape.1]
+  have hl1 : X1.pop.length = st.pop.length + d1.length := by rw [hd1]; simp
+  have hl2 : X.pop.length = X1.pop.length + d2.length := by rw [hd2]; simp
+  refine ⟨B.inv, ⟨B.shape.1.trans A.shape.1, B.shape.2.trans A.shape.2⟩,
+    ⟨d1 ++ d2, by rw [hd2, hd1, List.append_assoc], by simp; omega, ?_⟩, ?_⟩
+  · intro x hx
+    rcases List.mem_append.1 hx with h | h
+    · exact hr1 x h
+    · obtain ⟨h1, h2, h3⟩ := hr2 x h
+      refine ⟨fun k hk => by have := h1 k hk; omega, ?_, fun k hk => (h3 k hk).imp id (fun h => by omega)⟩
+      intro b' p hxe
+      obtain ⟨ha, hb'⟩ := h2 b' p hxe
+      rw [hcb] at ha
+      exact ⟨ha.imp id (fun h => by omega), fun k hk => by have := hb' k hk; omega⟩
+  · intro ext i b' p hi hge hlt
+    by_cases h1 : i < X1.pop.length
+    · have hq : X.pop ++ ext = X1.pop ++ (d2 ++ ext) := by rw [hd2, List.append_assoc]
+      rw [hq] at hi ⊢
+      obtain ⟨row, hr1', hr2', hr3⟩ := A.subsAll (d2 ++ ext) i b' p hi hge h1
+      refine ⟨row, hr1', hr2', fun hc => hr3 ?_⟩
+      intro x hx k hk
+      rcases List.mem_append.1 hx with h | h
+      · right; exact (hr2 x h).1 k hk
+      · have := hc x h k hk
+        omega
+    · obtain ⟨row, hr1', hr2', hr3⟩ := B.subsAll ext i b' p hi (by omega) hlt
+      refine ⟨row, hr1', hr2', fun hc => hr3 ?_⟩
+      intro x hx k hk
+      have := hc x hx k hk
+      omega
+
+/-- the rows of later clauses, followed by weakly fresh rows, are weakly fresh for what precedes them -/
+theorem freshW_seq {ifS n lo : Nat} {X1 X : St} (B : SeqSpec ifS n X1 X) {d2 ext : List Row}
+    (hd2 : X.pop = X1.pop ++ d2) (hcb : curBlkD X1.scopes ≤ lo) (hif : ifS ≤ lo)
+    (hext : FreshW lo X.pop.length ext) : FreshW lo X1.pop.length (d2 ++ ext) := by
+  obtain ⟨d2', hd2', _, hr2⟩ := B.grows
+  have : d2' = d2 := List.append_cancel_left (hd2'.symm.trans hd2)
+  subst this
+  have hl : X1.pop.length ≤ X.pop.length := by rw [hd2]; simp
+  intro x hx
+  rcases List.mem_append.1 hx with h | h
+  · obtain ⟨h1, h2, h3⟩ := hr2 x h
+    refine ⟨fun b' p hxe => ?_, fun k hk => ?_⟩
+    · obtain ⟨ha, hb'⟩ := h2 b' p hxe
+      refine ⟨?_, fun k hk => .inr (Nat.le_of_lt (hb' k hk))⟩
+      rcases ha with h | h
+      · left; omega
+      · right; omega
+    · rcases h3 k hk with h | h
+      · left; omega
+      · right; omega
+  · exact (hext.mono (Nat.le_refl _) hl) x h
+
+theorem clause_rows {lo ifS a : Nat} {c : Option Nat} {dm : List Row} (hif : ifS < lo)
+    (hrows : ∀ x ∈ dm, (∀ k, x.smtOf = some k → lo < k) ∧
+      (∀ b' p, x = .smt b' p → lo < b' ∧ ∀ k, p = some k → lo < k) ∧ (∀ k ∈ ikeys x, lo < k)) :
+    elifsOf (.smt a c :: dm) ifS = [] ∧ elseOf (.smt a c :: dm) ifS = none := by
+  apply no_clauses
+  intro x hx k hk
+  simp only [List.mem_cons] at hx
+  rcases hx with rfl | hx
+  · simp [ikeys] at hk
+  · have := (hrows x hx).2.2 k hk; omega
+
+theorem append_eq_nil_of_self {l d : List Row} (h : l = l ++ d) : d = [] := by
+  have : l ++ [] = l ++ d := by simpa using h
+  exact (List.append_cancel_left this).symm
+
+/-- the else tokens `regenSmt` prints for the ACT_E found over R683 -/
+def elseToks (q : FlatPop) (f : Nat) : Option Row → List Tok
+  | some (.e _ eb _) => [Tok.kw Kw.else_] ++ regenBlk q f eb
+  | _ => []
+
+structure ElifsSpec (fc : FCtx) (ifS : Nat) (el : Elifs) (st : St) : Prop where
+  seq : SeqSpec ifS (szEl el) st (buildElifs fc ifS el st)
+  noElse : ∀ d, (buildElifs fc ifS el st).pop = st.pop ++ d → elseOf d ifS = none
+  regen : ∀ d, (buildElifs fc ifS el st).pop = st.pop ++ d → ∀ (ext : List Row) (f : Nat),
+    FreshW st.pop.length (buildElifs fc ifS el st).pop.length ext → szEl el + 1 ≤ f →
+    regenElifs ((buildElifs fc ifS el st).pop ++ ext) f (elifsOf d ifS) = genElifs el
+
+structure ElseSpec (fc : FCtx) (ifS : Nat) (els : Else) (st : St) : Prop where
+  seq : SeqSpec ifS (szEs els) st (buildElse fc ifS els st)
+  noElif : ∀ d, (buildElse fc ifS els st).pop = st.pop ++ d → elifsOf d ifS = []
+  regen : ∀ d, (buildElse fc ifS els st).pop = st.pop ++ d → ∃ r : Option Row, elseOf d ifS = r ∧
+    ∀ (ext : List Row) (f : Nat), FreshW st.pop.length (buildElse fc ifS els st).pop.length ext → szEs els + 1 ≤ f →
+    elseToks ((buildElse fc ifS els st).pop ++ ext) f r = genElse els
+
+theorem elifs_nil_spec {fc : FCtx} {ifS : Nat} {st : St} (hinv : Inv st) : ElifsSpec fc ifS .nil st := by
+  have h : buildElifs fc ifS .nil st = st := by simp [buildElifs]
+  refine ⟨by rw [h]; exact SeqSpec.refl hinv, ?_, ?_⟩
+  · intro d hd
+    rw [h] at hd
+    have := append_eq_nil_of_self hd
+    subst this; rfl
+  · intro d hd ext f _ hf
+    rw [h] at hd ⊢
+    have := append_eq_nil_of_self hd
+    subst this
+    obtain ⟨f', rfl⟩ := fuel_succ (by omega : 1 ≤ f)
+    simp [elifsOf, regenElifs, genElifs]
+
+theorem else_none_spec {fc : FCtx} {ifS : Nat} {st : St} (hinv : Inv st) : ElseSpec fc ifS .none st := by
+  have h : buildElse fc ifS .none st = st := by simp [buildElse]
+  refine ⟨by rw [h]; exact SeqSpec.refl hinv, ?_, ?_⟩
+  · intro d hd
+    rw [h] at hd
+    have := append_eq_nil_of_self hd
+    subst this; rfl
+  · intro d hd
+    rw [h] at hd
+    have := append_eq_nil_of_self hd
+    subst this
+    exact ⟨none, rfl, fun ext f _ _ => by simp [elseToks, genElse]⟩
+
+/-- `else`: ACT_SMT (in the block holding the `if`, chained nowhere), a new ACT_BLK and its statement list, ACT_E -/
+theorem else_some_spec {fc : FCtx} {ifS : Nat} {eb : Block} {st : St} (hinv : Inv st) (hif : ifS < st.pop.length)
+    (hok : (buildElse fc ifS (.some eb) st).ok = true)
+    (hM : ∀ st' : St, (buildStmts fc none eb st').ok = true → st'.ok = true)
+    (hC : ∀ st' : St, Inv st' → (buildStmts fc none eb st').ok = true → ChainSpec fc none eb st') :
+    ElseSpec fc ifS (.some eb) st := by
+  have hbe : buildElse fc ifS (.some eb) st =
+      ((popScope (buildStmts fc none eb (pushScope (.blk (newSmt none st).2.pop.length)
+        ((newSmt none st).2.new (.blk false)).2))).new (.e st.pop.length (newSmt none st).2.pop.length ifS)).2 := by
+    simp [buildElse, withBlock]
+  have G := block_gen (fc := fc) (prev := none) (b := eb) (st := st) (szB eb + 2) (newSmt none st).2
+    (fun k => .e st.pop.length k ifS) [] (buildElse fc ifS (.some eb) st) hbe hinv hok (by simp) (by simp)
+    (newSmt_ts hinv (by intro k h; cases h)) (newSmt_sym hinv) (by simp) (by simp)
+    (fun h => by simp at h; exact h.1)
+    ⟨rfl, (fun k hk => by simp [skeys] at hk; omega), rfl⟩ (by simp) (by simp) hM hC
+  obtain ⟨dm, hdm, hszm, hrows⟩ := G.grows
+  have hcr := clause_rows (a := curBlkD st.scopes) (c := none) hif hrows
+  refine ⟨(SeqSpec.of_block (ifS := ifS) G rfl (by intro k hk; simpa [ikeys] using hk)).le (by simp [szEs]), ?_, ?_⟩
+  · intro d hd
+    have : d = .smt (curBlkD st.scopes) none :: (dm ++ [.e st.pop.length (newSmt none st).2.pop.length ifS]) :=
+      List.append_cancel_left (hd.symm.trans hdm)
+    subst this
+    rw [← List.cons_append, elifsOf_append, hcr.1]
+    simp [elifsOf]
+  · intro d hd
+    have : d = .smt (curBlkD st.scopes) none :: (dm ++ [.e st.pop.length (newSmt none st).2.pop.length ifS]) :=
+      List.append_cancel_left (hd.symm.trans hdm)
+    subst this
+    refine ⟨some (.e st.pop.length (newSmt none st).2.pop.length ifS), ?_, ?_⟩
+    · rw [← List.cons_append, elseOf_append, hcr.2]
+      simp [elseOf]
+    · intro ext f hfr hf
+      simp only [szEs] at hf
+      obtain ⟨rest, f', e1, hff, _, hblk⟩ := G.regen ext (f + 1) hfr (by omega)
+      have : f' = f := by omega
+      subst this
+      simp only [elseToks, genElse]
+      rw [e1, hblk]
+
+/-- one `elif`: ACT_SMT (in the block holding the `if`, chained nowhere), the condition's values, a new ACT_BLK and its
+    statement list, ACT_EL; then the remaining clauses -/
+theorem elifs_cons_spec {fc : FCtx} {ifS : Nat} {e : Expr} {b : Block} {rest : Elifs} {st : St} (hce : coreE e = true)
+    (hinv : Inv st) (hif : ifS < st.pop.length) (hok : (buildElifs fc ifS (.cons e b rest) st).ok = true)
+    (hMr : ∀ st' : St, (buildElifs fc ifS rest st').ok = true → st'.ok = true)
+    (hM : ∀ st' : St, (buildStmts fc none b st').ok = true → st'.ok = true)
+    (hC : ∀ st' : St, Inv st' → (buildStmts fc none b st').ok = true → ChainSpec fc none b st')
+    (hR : ∀ st' : St, Inv st' → ifS < st'.pop.length → (buildElifs fc ifS rest st').ok = true →
+      ElifsSpec fc ifS rest st') : ElifsSpec fc ifS (.cons e b rest) st := by
+  generalize hX1 : ((popScope (buildStmts fc none b (pushScope (.blk (buildExpr fc e (newSmt none st).2).2.pop.length)
+      ((buildExpr fc e (newSmt none st).2).2.new (.blk false)).2))).new
+      (.el st.pop.length (buildExpr fc e (newSmt none st).2).2.pop.length (buildExpr fc e (newSmt none st).2).1 ifS)).2 = X1
+  have hbe : buildElifs fc ifS (.cons e b rest) st = buildElifs fc ifS rest X1 := by
+    rw [← hX1]; simp [buildElifs, withBlock]
+  rw [hbe] at hok
+  have hok1 : X1.ok = true := hMr _ hok
+  have hokV : (buildExpr fc e (newSmt none st).2).2.ok = true := by
+    have h1 : (buildStmts fc none b (pushScope (.blk (buildExpr fc e (newSmt none st).2).2.pop.length)
+        ((buildExpr fc e (newSmt none st).2).2.new (.blk false)).2)).ok = true := by rw [← hX1] at hok1; simpa using hok1
+    simpa using hM _ h1
+  have hts0 := newSmt_ts (prev := none) hinv (by intro k h; cases h)
+  have E := buildExpr_spec fc e (newSmt none st).2 hce (newSmt_sym hinv) hts0.tsv hokV
+  obtain ⟨dE, hdE, hlE, _, hoE⟩ := E.grows
+  have G := block_gen (fc := fc) (prev := none) (b := b) (st := st) (szV e + szB b + 2) (buildExpr fc e (newSmt none st).2).2
+    (fun k => .el st.pop.length k (buildExpr fc e (newSmt none st).2).1 ifS) dE X1 hX1.symm hinv hok1
+    (by rw [hdE]; simp) (expr_rows_plain (fc := fc) (e := e) (st := st) hoE) (hts0.expr E)
+    (E.symOK (newSmt_sym hinv)) (by rw [E.scopes]; simp) (by rw [E.scopes]; simp)
+    (fun h => by have := E.ok0; simp at this; exact this.1)
+    ⟨rfl, (fun k hk => by simp [skeys] at hk; omega), rfl⟩ (by omega) (by omega) hM hC
+  obtain ⟨dm, hdm, hszm, hrows⟩ := G.grows
+  have hcr := clause_rows (a := curBlkD st.scopes) (c := none) hif hrows
+  have hX1len : st.pop.length < X1.pop.length := by rw [hdm]; simp
+  have R := hR X1 G.inv (by omega) hok
+  obtain ⟨dr, hdr, hszr, hrr⟩ := R.seq.grows
+  have A := SeqSpec.of_block (ifS := ifS) G rfl (by intro k hk; simpa [ikeys] using hk)
+  have hcb1 : curBlkD X1.scopes = curBlkD st.scopes := by simp [curBlkD, G.shape.1]
+  have hdd : ∀ d, (buildElifs fc ifS rest X1).pop = st.pop ++ d →
+      d = (.smt (curBlkD st.scopes) none :: dm ++
+        [.el st.pop.length (buildExpr fc e (newSmt none st).2).2.pop.length (buildExpr fc e (newSmt none st).2).1 ifS]) ++ dr := by
+    intro d hd
+    apply List.append_cancel_left (as := st.pop)
+    rw [← hd, hdr, hdm]; simp
+  refine ⟨by rw [hbe]; exact (A.trans R.seq).le (by simp [szEl]; omega), ?_, ?_⟩
+  · intro d hd
+    rw [hbe] at hd
+    rw [hdd d hd, elseOf_append, elseOf_append, hcr.2, R.noElse dr hdr]
+    simp [elseOf]
+  · intro d hd ext f hfr hf
+    rw [hbe] at hd hfr ⊢
+    simp only [szEl] at hf
+    have hszb := one_le_szB b
+    obtain ⟨f', rfl⟩ := fuel_succ (by omega : 1 ≤ f)
+    have hel : elifsOf d ifS =
+        .el st.pop.length (buildExpr fc e (newSmt none st).2).2.pop.length (buildExpr fc e (newSmt none st).2).1 ifS ::
+          elifsOf dr ifS := by
+      rw [hdd d hd, elifsOf_append, elifsOf_append, hcr.1]
+      simp [elifsOf]
+    have hW1 : FreshW st.pop.length X1.pop.length (dr ++ ext) :=
+      freshW_seq R.seq hdr (by rw [hcb1]; exact Nat.le_of_lt hinv.curBlkD) (Nat.le_of_lt hif) hfr
+    obtain ⟨rst, f'', e1, hff, _, hblk⟩ := G.regen (dr ++ ext) (f' + 1) hW1 (by omega)
+    have : f'' = f' := by omega
+    subst this
+    have hq : (buildElifs fc ifS rest X1).pop ++ ext = (buildExpr fc e (newSmt none st).2).2.pop ++ rst := by
+      rw [hdr, List.append_assoc]; exact e1
+    have hval := E.regen rst f'' (by omega)
+    have hrest := R.regen dr hdr ext f'' (hfr.mono (Nat.le_of_lt hX1len) (Nat.le_refl _)) (by omega)
+    rw [hel]
+    simp only [regenElifs, genElifs]
+    rw [hrest, hq, hval, hblk]
+
+/-- the state after the ACT_IF row: ACT_SMT, the condition's values, a new ACT_BLK and its statement list, ACT_IF -/
+theorem if_head {fc : FCtx} {prev : Option Nat} {e : Expr} {b : Block} {st : St} (hce : coreE e = true)
+    (hinv : Inv st) (hprev : ∀ k, prev = some k → k < st.pop.length)
+    (hok : (buildStmt fc prev (.if_ e b .nil .none) st).2.ok = true)
+    (hM : ∀ st' : St, (buildStmts fc none b st').ok = true → st'.ok = true)
+    (hC : ∀ st' : St, Inv st' → (buildStmts fc none b st').ok = true → ChainSpec fc none b st') :
+    BSpec fc prev b (szV e + szB b + 2) st (buildExpr fc e (newSmt prev st).2).2
+      (.if_ st.pop.length (buildExpr fc e (newSmt prev st).2).2.pop.length (buildExpr fc e (newSmt prev st).2).1)
+      (buildStmt fc prev (.if_ e b .nil .none) st).2 ∧ ExprSpec fc e (newSmt prev st).2 := by
+  have hb : (buildStmt fc prev (.if_ e b .nil .none) st).2 =
+      ((popScope (buildStmts fc none b (pushScope (.blk (buildExpr fc e (newSmt prev st).2).2.pop.length)
+        ((buildExpr fc e (newSmt prev st).2).2.new (.blk false)).2))).new
+        (.if_ st.pop.length (buildExpr fc e (newSmt prev st).2).2.pop.length (buildExpr fc e (newSmt prev st).2).1)).2 := by
+    simp [buildStmt, buildElifs, buildElse, withBlock]
+  have hokV : (buildExpr fc e (newSmt prev st).2).2.ok = true := by
+    have h1 : (buildStmts fc none b (pushScope (.blk (buildExpr fc e (newSmt prev st).2).2.pop.length)
+        ((buildExpr fc e (newSmt prev st).2).2.new (.blk false)).2)).ok = true := by rw [hb] at hok; simpa using hok
+    simpa using hM _ h1
+  have hts0 := newSmt_ts hinv hprev
+  have E := buildExpr_spec fc e (newSmt prev st).2 hce (newSmt_sym hinv) hts0.tsv hokV
+  obtain ⟨dE, hdE, hlE, _, hoE⟩ := E.grows
+  refine ⟨?_, E⟩
+  exact block_gen (fc := fc) (prev := prev) (b := b) (st := st) (szV e + szB b + 2) (buildExpr fc e (newSmt prev st).2).2
+    (fun k => .if_ st.pop.length k (buildExpr fc e (newSmt prev st).2).1) dE _ hb hinv hok
+    (by rw [hdE]; simp) (expr_rows_plain (fc := fc) (e := e) (st := st) hoE) (hts0.expr E)
+    (E.symOK (newSmt_sym hinv)) (by rw [E.scopes]; simp) (by rw [E.scopes]; simp)
+    (fun h => by have := E.ok0; simp at this; exact this.1)
+    ⟨rfl, (fun k hk => by simp [skeys] at hk), rfl⟩ (by omega) (by omega) hM hC
+
+/-- `if` with its elif / else clauses: the rows up to the ACT_IF, then every clause's ACT_SMT (in the block HOLDING the
+    if, no R661 link), values, block and ACT_EL / ACT_E row naming the if over R682 / R683 -/
+theorem ifFull_spec {fc : FCtx} {prev : Option Nat} {e : Expr} {b : Block} {elifs : Elifs} {els : Else} {st : St}
+    (hce : coreE e = true) (hinv : Inv st) (hprev : ∀ k, prev = some k → k < st.pop.length)
+    (hok : (buildStmt fc prev (.if_ e b elifs els) st).2.ok = true)
+    (hM : ∀ st' : St, (buildStmts fc none b st').ok = true → st'.ok = true)
+    (hC : ∀ st' : St, Inv st' → (buildStmts fc none b st').ok = true → ChainSpec fc none b st')
+    (hMel : ∀ st' : St, (buildElifs fc st.pop.length elifs st').ok = true → st'.ok = true)
+    (hMes : ∀ st' : St, (buildElse fc st.pop.length els st').ok = true → st'.ok = true)
+    (hEl : ∀ st' : St, Inv st' → st.pop.length < st'.pop.length → (buildElifs fc st.pop.length elifs st').ok = true →
+      ElifsSpec fc st.pop.length elifs st')
+    (hEs : ∀ st' : St, Inv st' → st.pop.length < st'.pop.length → (buildElse fc st.pop.length els st').ok = true →
+      ElseSpec fc st.pop.length els st') :
+    StmtSpec fc prev (.if_ e b elifs els) st := by
+  have hb : buildStmt fc prev (.if_ e b elifs els) st = (st.pop.length,
+      buildElse fc st.pop.length els (buildElifs fc st.pop.length elifs (buildStmt fc prev (.if_ e b .nil .none) st).2)) := by
+    simp [buildStmt, buildElifs, buildElse]
+  have hokX : (buildElse fc st.pop.length els
+      (buildElifs fc st.pop.length elifs (buildStmt fc prev (.if_ e b .nil .none) st).2)).ok = true := by
+    rw [hb] at hok; exact hok
+  have hok1 := hMes _ hokX
+  have hok0' := hMel _ hok1
+  obtain ⟨G, E⟩ := if_head hce hinv hprev hok0' hM hC
+  generalize (buildStmt fc prev (.if_ e b .nil .none) st).2 = S0 at hb hokX hok1 hok0' G
+  obtain ⟨dm, hdm, hszm, hrows⟩ := G.grows
+  have hS0len : st.pop.length < S0.pop.length := by rw [hdm]; simp
+  have EL := hEl S0 G.inv hS0len hok1
+  obtain ⟨d1, hd1, hs1, hr1⟩ := EL.seq.grows
+  have hX1len : S0.pop.length ≤ (buildElifs fc st.pop.length elifs S0).pop.length := by rw [hd1]; simp
+  have ES := hEs _ EL.seq.inv (by omega) hokX
+  obtain ⟨d2, hd2, hs2, hr2⟩ := ES.seq.grows
+  have hXlen : (buildElifs fc st.pop.length elifs S0).pop.length ≤
+      (buildElse fc st.pop.length els (buildElifs fc st.pop.length elifs S0)).pop.length := by rw [hd2]; simp
+  have SQ := EL.seq.trans ES.seq
+  obtain ⟨dq, hdq, hsq, hrq⟩ := SQ.grows
+  have hdq12 : dq = d1 ++ d2 := by
+    apply List.append_cancel_left (as := S0.pop)
+    rw [← hdq, hd2, hd1, List.append_assoc]
+  have hcb : curBlkD S0.scopes = curBlkD st.scopes := by simp [curBlkD, G.shape.1]
+  have hcb1 : curBlkD (buildElifs fc st.pop.length elifs S0).scopes = curBlkD S0.scopes := by
+    simp [curBlkD, EL.seq.shape.1]
+  have hqe : ∀ ext : List Row, (buildElse fc st.pop.length els (buildElifs fc st.pop.length elifs S0)).pop ++ ext =
+      S0.pop ++ (dq ++ ext) := by intro ext; rw [hdq, List.append_assoc]
+  refine ⟨G.ok0, by rw [hb], ⟨dm ++ [.if_ st.pop.length (buildExpr fc e (newSmt prev st).2).2.pop.length
+      (buildExpr fc e (newSmt prev st).2).1] ++ dq, ?_, ?_, ?_⟩, by rw [hb]; exact SQ.inv,
+    by rw [hb]; exact ⟨SQ.shape.1.trans G.shape.1, SQ.shape.2.trans G.shape.2⟩, ?_, ?_, ?_, ?_⟩
+  · rw [hb]; simp only []; rw [hdq, hdm]; simp
+  · simp [szS]; omega
+  · intro x hx
+    rcases List.mem_append.1 hx with h | h
+    · rcases List.mem_append.1 h with h | h
+      · obtain ⟨h1, h2, h3⟩ := hrows x h
+        exact ⟨fun k hk => Nat.le_of_lt (h1 k hk), fun b' p hxe => ⟨.inr (h2 b' p hxe).1, (h2 b' p hxe).2⟩,
+          fun k hk => Nat.le_of_lt (h3 k hk)⟩
+      · simp at h; subst h
+        exact ⟨(fun k hk => by simp [Row.smtOf] at hk; omega), (fun b' p h => by cases h), (fun k hk => by simp [ikeys] at hk)⟩
+    · obtain ⟨h1, h2, h3⟩ := hrq x h
+      refine ⟨fun k hk => by have := h1 k hk; omega, ?_, fun k hk => by rcases h3 k hk with h | h <;> omega⟩
+      intro b' p hxe
+      obtain ⟨ha, hb'⟩ := h2 b' p hxe
+      rw [hcb] at ha
+      exact ⟨ha.imp id (fun h => by omega), fun k hk => by have := hb' k hk; omega⟩
+  · intro ext
+    rw [hb]; simp only []
+    rw [hqe]
+    exact ⟨_, G.sub (dq ++ ext), rfl⟩
+  · intro ext fuel hfr hf
+    rw [hb] at hfr ⊢
+    simp only [] at hfr ⊢
+    simp only [szS] at hf
+    have hszb := one_le_szB b
+    have hW := hfr.weak
+    have hW0 : FreshW st.pop.length S0.pop.length (dq ++ ext) :=
+      freshW_seq SQ hdq (by rw [hcb]; exact Nat.le_of_lt hinv.curBlkD) (Nat.le_refl _) hW
+    obtain ⟨rest, f, e1, rfl, _, hblk⟩ := G.regen (dq ++ ext) fuel hW0 (by omega)
+    have hq := (hqe ext).trans e1
+    have hsub := G.sub (dq ++ ext)
+    rw [← hqe] at hsub
+    have hval := E.regen rest f (by omega)
+    rw [← hq] at hval hblk
+    -- the clauses found over R682 / R683
+    have hn0 : ∀ x ∈ st.pop, ∀ k ∈ ikeys x, k ≠ st.pop.length := by
+      intro x hx k hk
+      obtain ⟨i, hi⟩ := List.getElem?_of_mem hx
+      have h1 := (hinv.ts i x hi).2.2 k (ikeys_sub_skeys x k hk)
+      have h2 := getElem?_lt_of_some hi
+      omega
+    have hn1 : ∀ x ∈ Row.smt (curBlkD st.scopes) prev :: (dm ++ [Row.if_ st.pop.length
+        (buildExpr fc e (newSmt prev st).2).2.pop.length (buildExpr fc e (newSmt prev st).2).1]),
+        ∀ k ∈ ikeys x, k ≠ st.pop.length := by
+      intro x hx k hk
+      simp only [List.mem_cons, List.mem_append, List.not_mem_nil, or_false] at hx
+      rcases hx with rfl | hx | rfl
+      · simp [ikeys] at hk
+      · have := (hrows x hx).2.2 k hk; omega
+      · simp [ikeys] at hk
+    have hn2 : ∀ x ∈ ext, ∀ k ∈ ikeys x, k ≠ st.pop.length := by
+      intro x hx k hk
+      have := (hfr x hx).2 k hk
+      omega
+    have hpopX : (buildElse fc st.pop.length els (buildElifs fc st.pop.length elifs S0)).pop ++ ext =
+        st.pop ++ (Row.smt (curBlkD st.scopes) prev :: (dm ++ [Row.if_ st.pop.length
+          (buildExpr fc e (newSmt prev st).2).2.pop.length (buildExpr fc e (newSmt prev st).2).1])) ++ d1 ++ d2 ++ ext := by
+      rw [hd2, hd1, hdm]
+    have helifs : elifsOf ((buildElse fc st.pop.length els (buildElifs fc st.pop.length elifs S0)).pop ++ ext)
+        st.pop.length = elifsOf d1 st.pop.length := by
+      rw [hpopX]
+      simp only [elifsOf_append, (no_clauses hn0).1, (no_clauses hn1).1, (no_clauses hn2).1, ES.noElif d2 hd2,
+        List.nil_append, List.append_nil]
+    obtain ⟨r, hr, hrt⟩ := ES.regen d2 hd2
+    have helse : elseOf ((buildElse fc st.pop.length els (buildElifs fc st.pop.length elifs S0)).pop ++ ext)
+        st.pop.length = r := by
+      rw [hpopX]
+      simp only [elseOf_append, (no_clauses hn0).2, (no_clauses hn1).2, (no_clauses hn2).2, EL.noElse d1 hd1, hr,
+        Option.or_none, Option.none_or]
+    have hWe : FreshW S0.pop.length (buildElse fc st.pop.length els (buildElifs fc st.pop.length elifs S0)).pop.length ext :=
+      hW.mono (Nat.le_of_lt hS0len) (Nat.le_refl _)
+    have hEl' := EL.regen d1 hd1 (d2 ++ ext) f
+      (freshW_seq ES.seq hd2 (by rw [hcb1]; exact Nat.le_of_lt G.inv.curBlkD) (Nat.le_of_lt hS0len) hWe) (by omega)
+    rw [← List.append_assoc, ← hd2] at hEl'
+    have hEs' := hrt ext f (hW.mono (by omega) (Nat.le_refl _)) (by omega)
+    simp only [regenSmt, hsub, hval, hblk, helifs, helse, hEl', genStmt]
+    rw [← hEs']
+    cases r with
+    | none => rfl
+    | some x => cases x <;> rfl
+  · intro ext i b' p hi hge hlt
+    rw [hb] at hi hlt ⊢
+    simp only [] at hi hlt ⊢
+    by_cases h1 : i < S0.pop.length
+    · rw [hqe] at hi ⊢
+      obtain ⟨row, ha, hb2, hc2⟩ := G.subsAll (dq ++ ext) i b' p hi hge h1
+      refine ⟨row, ha, hb2, fun hc => hc2 ?_⟩
+      intro x hx k hk
+      rcases List.mem_append.1 hx with h | h
+      · right; exact (hrq x h).1 k hk
+      · have := hc x h k hk
+        omega
+    · obtain ⟨row, ha, hb2, hc2⟩ := SQ.subsAll ext i b' p hi (by omega) hlt
+      refine ⟨row, ha, hb2, fun hc => hc2 ?_⟩
+      intro x hx k hk
+      have := hc x hx k hk
+      omega
+  · intro ext hext
+    rw [hb]; simp only []
+    rw [hqe]
+    apply G.uniq
+    intro x hx hxe
+    rcases List.mem_append.1 hx with h | h
+    · have := (hrq x h).1 _ hxe; omega
+    · exact hext x h hxe
+
+attribute [local irreducible] buildStmt buildStmts buildElifs buildElse in
 mutual
 theorem buildStmt_spec (fc : FCtx) : ∀ (s : Stmt) (prev : Option Nat) (st : St), coreS s = true → Inv st →
     (∀ k, prev = some k → k < st.pop.length) → (buildStmt fc prev s st).2.ok = true → StmtSpec fc prev s st
@@ -1867,12 +2415,15 @@ theorem buildStmt_spec (fc : FCtx) : ∀ (s : Stmt) (prev : Option Nat) (st : St
     exact forEach_spec hc.1.1 hc.1.2 hinv hprev hok (fun st' ho => buildStmts_ok_mono_core fc b none st' hc.2 ho)
       (fun st' hi ho =>
         buildStmts_spec fc b none st' hc.2 hi (by intro k h; cases h) (okAll_of_ok fc b none st' hc.2 ho))
-  | .if_ e b .nil .none, prev, st, hc, hinv, hprev, hok => by
+  | .if_ e b elifs els, prev, st, hc, hinv, hprev, hok => by
     simp only [coreS, Bool.and_eq_true] at hc
-    exact if_spec hc.1 hinv hprev hok (fun st' ho => buildStmts_ok_mono_core fc b none st' hc.2 ho) (fun st' hi ho =>
-      buildStmts_spec fc b none st' hc.2 hi (by intro k h; cases h) (okAll_of_ok fc b none st' hc.2 ho))
-  | .if_ e b (.cons _ _ _) els, prev, st, hc, hinv, hprev, hok => by simp [coreS, coreS0] at hc
-  | .if_ e b .nil (.some _), prev, st, hc, hinv, hprev, hok => by simp [coreS, coreS0] at hc
+    exact ifFull_spec hc.1.1.1 hinv hprev hok (fun st' ho => buildStmts_ok_mono_core fc b none st' hc.1.1.2 ho)
+      (fun st' hi ho =>
+        buildStmts_spec fc b none st' hc.1.1.2 hi (by intro k h; cases h) (okAll_of_ok fc b none st' hc.1.1.2 ho))
+      (fun st' ho => buildElifs_ok_mono_core fc elifs _ st' hc.1.2 ho)
+      (fun st' ho => buildElse_ok_mono_core fc els _ st' hc.2 ho)
+      (fun st' hi hl ho => buildElifs_spec fc elifs _ st' hc.1.2 hi hl ho)
+      (fun st' hi hl ho => buildElse_spec fc els _ st' hc.2 hi hl ho)
   | .invoke e, prev, st, hc, hinv, hprev, hok => by simp [coreS, coreS0] at hc
   | .genEvt l m d t, prev, st, hc, hinv, hprev, hok => by simp [coreS, coreS0] at hc
   | .createEvt v l m d t, prev, st, hc, hinv, hprev, hok => by simp [coreS, coreS0] at hc
@@ -2111,6 +2662,24 @@ theorem buildStmts_spec (fc : FCtx) : ∀ (ss : Block) (prev : Option Nat) (st :
         intro x hx k hk
         have := hext x hx k hk
         omega
+theorem buildElifs_spec (fc : FCtx) : ∀ (el : Elifs) (ifS : Nat) (st : St), coreEl el = true → Inv st →
+    ifS < st.pop.length → (buildElifs fc ifS el st).ok = true → ElifsSpec fc ifS el st
+  | .nil, ifS, st, _, hinv, _, _ => elifs_nil_spec hinv
+  | .cons e b rest, ifS, st, hc, hinv, hif, hok => by
+    simp only [coreEl, Bool.and_eq_true] at hc
+    exact elifs_cons_spec hc.1.1 hinv hif hok (fun st' ho => buildElifs_ok_mono_core fc rest ifS st' hc.2 ho)
+      (fun st' ho => buildStmts_ok_mono_core fc b none st' hc.1.2 ho)
+      (fun st' hi ho =>
+        buildStmts_spec fc b none st' hc.1.2 hi (by intro k h; cases h) (okAll_of_ok fc b none st' hc.1.2 ho))
+      (fun st' hi hl ho => buildElifs_spec fc rest ifS st' hc.2 hi hl ho)
+theorem buildElse_spec (fc : FCtx) : ∀ (els : Else) (ifS : Nat) (st : St), coreEs els = true → Inv st →
+    ifS < st.pop.length → (buildElse fc ifS els st).ok = true → ElseSpec fc ifS els st
+  | .none, ifS, st, _, hinv, _, _ => else_none_spec hinv
+  | .some eb, ifS, st, hc, hinv, hif, hok => by
+    simp only [coreEs] at hc
+    exact else_some_spec hinv hif hok (fun st' ho => buildStmts_ok_mono_core fc eb none st' hc ho)
+      (fun st' hi ho =>
+        buildStmts_spec fc eb none st' hc hi (by intro k h; cases h) (okAll_of_ok fc eb none st' hc ho))
 end
 
 /-! ### whole bodies -/
@@ -2303,5 +2872,30 @@ theorem okAll_of_flatOk (fc : FCtx) (a : Block) (hc : coreB a = true) (h : flatO
     okAll fc none a bodySt = true := by
   apply okAll_of_ok fc a none bodySt hc
   simpa [flatOk, prebuildSt, popScope, bodySt] using h
+
+/-! ### non-vacuity: a body with `if` / `elif` / `else` (nested, with an empty elif block) lies in `coreB` and is `flatOk` -/
+
+/-- `n = 0; if (n < 1) n = 2; elif (n < 2) if (true) break; else control stop; end if; elif (false) else return n; end if;
+    return;` -/
+def ifElifElseBody : Block :=
+  .cons (.assign (.var "n") (.int "0"))
+  (.cons (.if_ (.bin (.var "n") "<" (.int "1")) (.cons (.assign (.var "n") (.int "2")) .nil)
+      (.cons (.bin (.var "n") "<" (.int "2"))
+        (.cons (.if_ (.bool "true") (.cons .brk .nil) .nil (.some (.cons .ctl .nil))) .nil)
+        (.cons (.bool "false") .nil .nil))
+      (.some (.cons (.ret (some (.var "n"))) .nil)))
+  (.cons (.ret none) .nil))
+
+def ifElifElseFc : FCtx := { ees := [], classes := ["DOG"] }
+
+example : coreB ifElifElseBody = true ∧ flatOk ifElifElseFc ifElifElseBody = true := by decide
+
+example : regenFlat (prebuildFlat ifElifElseFc ifElifElseBody) = genTokens ifElifElseBody :=
+  regenFlat_prebuildFlat ifElifElseFc ifElifElseBody (by decide)
+    (okAll_of_flatOk ifElifElseFc ifElifElseBody (by decide) (by decide))
+
+/-- the ACT_EL / ACT_E rows of the outer `if` (statement 9) are found over R682 / R683 -/
+example : (elifsOf (prebuildFlat ifElifElseFc ifElifElseBody) 9).length = 2 ∧
+    (elseOf (prebuildFlat ifElifElseFc ifElifElseBody) 9).isSome = true := by decide
 
 end Pyx.Prebuild.Flat
